@@ -8,12 +8,12 @@ PROPS["C18"] = dict(
     check_module="Random.Check",
     check_fn="check_case",
     coq_shard=40,
-    streams=[dict(name="main", quick=320, thorough=8000),
-             dict(name="zerotime", quick=40, thorough=800)],
+    streams=[dict(name="main", quick=240, thorough=8000),
+             dict(name="zerotime", quick=32, thorough=800)],
     rule="histories of 10-40 (thorough: 10-100) operations plus a tail of blocks: random requests by 5 consumers "
-         "(intervals 0-11, a few around 2^63 and 2^64; plain and oracle-seeded; ~6% malformed), block boundaries with a "
-         "chosen header (time step 0, 1-7 s or huge; start time 1, small, 1.7e9, 2^33 or up to 2^62; app hash from a "
-         "pool incl. empty and repeated), provider responses (valid seed, malformed, error result, wrong provider), "
+         "(intervals 0-11, a few far ones up to 2^62 that stay pending; plain and oracle-seeded; ~6% malformed), block "
+         "boundaries with a chosen header (time step 0, 1-7 s or up to 2^36; start time 1, small, 1.7e9, 2^33 or up to 2^37; "
+         "app hash from a pool incl. empty and repeated), provider responses (valid seed, malformed, error result, wrong provider), "
          "transfers emptying a consumer; stream zerotime: block times around 0; "
          "non-trivial = at least two requests are fulfilled in one block; distinct = by hash of the history",
     codes={1: "not-fulfilled-on-time", 2: "result-without-due-request", 3: "read-back-changed",
